@@ -134,6 +134,12 @@ func ReplayAll(a *Args, fn func(i int, raw json.RawMessage) Result) error {
 	if v, err := strconv.Atoi(os.Getenv("VERIF_RECORD_TIMEOUT")); err == nil && v > 0 {
 		deadline = time.Duration(v) * time.Second
 	}
+	// A single record re-executed in a process of its own is told the position it had in the batch
+	// (VERIF_INDEX_BASE), so that a harness that derives choices from (seed, position) repeats them.
+	base := 0
+	if v, err := strconv.Atoi(os.Getenv("VERIF_INDEX_BASE")); err == nil {
+		base = v
+	}
 	var hung int32
 	for i := range recs {
 		wg.Add(1)
@@ -147,7 +153,7 @@ func ReplayAll(a *Args, fn func(i int, raw json.RawMessage) Result) error {
 			}
 			done := make(chan Result, 1)
 			started := time.Now()
-			go func() { done <- Safely(i, func() Result { return fn(i, recs[i]) }) }()
+			go func() { done <- Safely(i, func() Result { return fn(i+base, recs[i]) }) }()
 			select {
 			case r := <-done:
 				res[i] = r
